@@ -5,7 +5,7 @@ CONSTANTS
   WithSelf = FALSE
   PlaceIn = {1, 2, 3, 4}
   SelfPlaces = {}
-  KeyOrders = "all"
+  KeyOrders = "two"
   G2Scopes <- Chain123
   G2Rev = {FALSE}
   RN = 0
